@@ -165,6 +165,18 @@ def rule_depth_guard(ctx):
         ncyc += 1
         comp = sorted(comp)
         r.functions.update(comp)
+        # the depth bound bounds the stack only if a frame is bounded: no local of a recursive function may have a size
+        # that depends on a type parameter (the payload `T`, a ManuallyDrop<T> / Option<T> held by value - moved out of
+        # the node "to drop it later" - make every one of up to CAP frames as large as the user's node)
+        for fn in comp:
+            fb = prog.body(fn)
+            big = [(i, l["ty"]) for i, l in enumerate(fb.locals) if l.get("size_generic")]
+            ok = not big
+            r.instance("%s: no local whose size depends on a type parameter" % fn.split("::")[-1], ok)
+            for ty in sorted({t for (_, t) in big})[:3]:
+                r.violate(fn, "frame:" + ty, "a function on the recursion holds a `%s` by value: each of up to 1024 frames then "
+                          "takes size_of of the user's payload, and the depth cap no longer bounds the stack (a chain of "
+                          "nodes with an 8 KiB payload needs 17 MiB)" % ty, fb.loc(0))
         if sorted({prog.home(x) for x in comp}) != [DGN]:      # (closures of the function belong to it)
             r.violate(comp[0], "cycle", "unexpected recursion reachable from dispose through %s" % comp)
             continue
